@@ -55,7 +55,13 @@ def exact_reads_only(ctx, bodies, rule):
 
 
 def take_bytes_length_check(ctx, rule):
-    b = ctx.anchor('asefile::reader::AseReader::take_bytes')
+    for fn in ('asefile::reader::AseReader::take_bytes', 'asefile::reader::AseReader::read_vec', 'asefile::reader::AseReader::unzip'):
+        _length_check(ctx, rule, fn)
+
+
+def _length_check(ctx, rule, fn):
+    """a bounded read_to_end must be followed by `delivered length != requested -> Err` dominating the Ok return"""
+    b = ctx.anchor(fn)
     if b is None:
         return
     n = 0
@@ -70,15 +76,19 @@ def take_bytes_length_check(ctx, rule):
         tm = b.blocks[sw]['term']
         bad = tm['otherwise'] if d[1] == 'Ne' else [s for v, s in tm['targets'] if v == 0][0]
         ok = q.arm_always_err(b, bad)
-        ctx.inst(rule, 'take_bytes#length', ok, 'take_bytes: delivered length != requested -> %s' % ('Err' if ok else 'NOT an error'), tm['span'],
+        good = [s_ for s_ in b.cfg.succ[sw] if s_ != bad]
+        dom = bool(good) and all(b.cfg.edge_dominates(sw, good[0], bb_) for bb_, _ in common.ok_defs(b))
+        short = fn.split('::')[-1]
+        ctx.inst(rule, short + '#length', ok and dom, '%s: delivered length != requested -> %s; the test %s every Ok return'
+                 % (short, 'Err' if ok else 'NOT an error', 'dominates' if dom else 'does NOT dominate'), tm['span'],
                  key=b.name + '|%s|length' % rule)
-    ctx.floor('length comparisons in take_bytes', n, 1)
+    ctx.floor('length comparisons in ' + fn.split('::')[-1], n, 1)
 
 
 def outer_reader_calls(ctx, rule):
     """X2: functions generic over the outer reader use only exact primitives on it"""
     fx = ctx.fx
-    allowed = {'byte', 'word', 'short', 'dword', 'long', 'read_exact', 'skip_reserved', 'with'}
+    allowed = {'byte', 'word', 'short', 'dword', 'long', 'read_exact', 'read_vec', 'skip_reserved', 'with'}
     outer = ['asefile::parse::read_aseprite', 'asefile::parse::parse_frame', 'asefile::parse::Chunk::read', 'asefile::parse::Chunk::read_all']
     n = 0
     for fn in outer:
